@@ -19,12 +19,11 @@ TRUSTED = ["the genson package is third-party: modelled (model/Infer.v) and comp
 ASSUMPTIONS = ["samples are JSON values whose object keys are pairwise distinct; keys that are their own class name are left out of the structural comparison"]
 
 V2, V1, DC, TD = "pydantic_v2.BaseModel", "pydantic.BaseModel", "dataclasses.dataclass", "typing.TypedDict"
-KEYS = ["id", "name", "first-name", "class", "value", "x_y", "data", "n1", "_id", "camelCase", "1st", "a b", "in", "é", "json", "copy", "a.b", "x-",
+KEYS = ["id", "name", "first-name", "class", "value", "x_y", "data", "n1", "_id", "camelCase", "1st", "a b", "in", "é", "json", "copy", "", "a.b", "x-",
         "日本", "with\ttab", "q\"q", "nel\u0085x", "ls x", "c1\u0090x", "del\u007fx"]
-# (the empty key loses its alias - Field(..., alias='') is not written - so the member cannot be read back: known finding C16-empty-key)
 # (a key with a non-BMP character makes generate() fail: the inferred schema is re-read from json.dumps text whose surrogate escapes the YAML
 #  scanner rejects - known finding C16-non-bmp-key)
-SAFE_KEYS = [k for k in KEYS if k and k.isprintable()]
+SAFE_KEYS = [k for k in KEYS if k.isprintable()]
 
 
 def gen_value(rng, depth=0, keys=KEYS):
@@ -66,6 +65,22 @@ def integral_float(v):
     return False
 
 
+def required_nullable_member(sch):
+    """an inferred object schema with a required member whose type list names null (how it is rendered - required Optional or
+    Optional = None - depends on where the object sits: C05's subject; the acceptance theorem covers both renderings)"""
+    if isinstance(sch, dict):
+        req = set(sch.get("required", []))
+        for k, v in (sch.get("properties") or {}).items():
+            if k in req and isinstance(v, dict) and ((isinstance(v.get("type"), list) and "null" in v["type"] and len(v["type"]) > 1)
+                                                     or any(isinstance(a, dict) and (a.get("type") == "null" or (isinstance(a.get("type"), list) and "null" in a["type"]))
+                                                            for a in v.get("anyOf", []))):
+                return True
+        return any(required_nullable_member(v) for v in sch.values())
+    if isinstance(sch, list):
+        return any(required_nullable_member(v) for v in sch)
+    return False
+
+
 def correspond(ctx):
     from genson import SchemaBuilder
     drv = lib.Driver()
@@ -94,6 +109,12 @@ def correspond(ctx):
             bad += 1
             if bad <= 5:
                 ctx.tie_broken("correspondence", "inferred schema differs from genson", f"sample {json.dumps(d)[:600]}\nmodel  {parts[0][:600]}\ngenson {want[:600]}")
+            continue
+        if required_nullable_member(sch):
+            ctx.count("class_tree_not_compared_required_nullable")
+            if parts[2] != "1":
+                bad += 1
+                ctx.tie_broken("correspondence", "the model of the generated class does not accept the sample", json.dumps(d)[:600])
             continue
         if parts[2] != "1":
             bad += 1
